@@ -443,6 +443,12 @@ func genWorld(t *rapid.T, maxFiles int, recCombo, http, shadows bool) *World {
 			feat.NoExt = true
 		}
 	}
+	if SelfNamedDefs && !shadows && rapid.IntRange(0, 99).Draw(t, "f:extshadow12") < 12 {
+		// (C12 worlds) two candidates for an extension-less reference, e0f.json and e0f.yaml: which one is read is decided by
+		// the ORDER of the --resolve-extension values, which is content - not by an order the tool makes up (seeded
+		// change s105: the list rebuilt from a set and sorted by length only)
+		feat.ExtShadow, feat.NoExt = true, true
+	}
 	if recCombo {
 		feat.RecCombo, feat.LocalRef, feat.Recur = true, true, true
 		feat.AllOf = true
@@ -625,6 +631,18 @@ func genWorld(t *rapid.T, maxFiles int, recCombo, http, shadows bool) *World {
 			a, b := w.Files[i], w.Files[i+1]
 			if a.ID != "" && !isSpecial(a) && !isSpecial(b) && a.Dir == b.Dir {
 				a.ID = "https://example.com/schemas/" + b.Base
+				break
+			}
+		}
+	}
+	if multiBias && !w.Feat.SharedID && rapid.IntRange(0, 7).Draw(t, "relidnamesneighbour") == 0 {
+		// (C20 worlds) a RELATIVE $id that happens to be the file name of the next document ("$id": "c.json" left over in
+		// x.json, next to a real c.json): an id is a name for mapping flags, not a second address under which other
+		// documents are found (seeded change s109: loaded documents also cached under their resolved $id)
+		for i := 0; i+1 < len(w.Files); i++ {
+			a, b := w.Files[i], w.Files[i+1]
+			if a.ID != "" && !isSpecial(a) && !isSpecial(b) && a.Dir == b.Dir {
+				a.ID = b.Base
 				break
 			}
 		}
